@@ -14,6 +14,7 @@ import (
 	"github.com/bytedance/sonic"
 	"github.com/bytedance/sonic/encoder"
 	"github.com/bytedance/sonic/internal/decoder/jitdec"
+	"github.com/bytedance/sonic/internal/decoder/optdec"
 	"github.com/bytedance/sonic/internal/encoder/vars"
 	"github.com/bytedance/sonic/internal/simrt"
 	"github.com/bytedance/sonic/option"
@@ -180,6 +181,7 @@ func runC08(c *Ctx) Result {
 	// knobs
 	capD, capE := c08Caps[t.Draw(simrt.Knobs, len(c08Caps))], c08Caps[t.Draw(simrt.Knobs, len(c08Caps))]
 	jitdec.SimResetCache(capD)
+	optdec.SimResetCache(capD) // the decoder actually in use when SONIC_USE_OPTDEC=1
 	vars.SimResetCache(capE)
 	simrt.PoolTape = t
 	simrt.OrderTape = t
